@@ -131,8 +131,7 @@ def evaluate(r, trains, edges, name, kw, ivals, be, rank=(), indices=None):
 
 
 def check_state(r, k, masks, task):
-    trains = [lattice.times(m) for m in masks]
-    edges = lattice.edges(k)
+    trains, edges = pairs.trains_edges(k, masks)
     ns = pairs.nspikes(masks)
     iv_all = [None] + intervals(k, task.get("ivm", "all"))
     for ci, (name, kw) in enumerate(task["conf"]):
